@@ -86,6 +86,11 @@ void DataArray::appendData(DataType dtype, const void *data, const NDSize &count
         }
     }
 
+    // text and numbers cannot be converted into each other: refuse before the array is enlarged
+    if ((dtype == DataType::String) != (dataType() == DataType::String)) {
+        throw std::invalid_argument("appendData: element type of the data cannot be converted to the element type of the DataArray");
+    }
+
     NDSize offset(extent.size(), 0);
     offset[axis] = extent[axis];
     extent[axis] += count[axis];
